@@ -102,6 +102,17 @@ def direct_calls(EoN, G, I0, R0, rho):
         calls["SIS_compact_effective_degree" + f] = (EoN.SIS_compact_effective_degree, (A(Es["Sk"]), A(Es["Ik"]), Es["SI"], Es["SS"], Es["II"], 0.6, 0.7), dict(kw, return_full_data=full))
         calls["EBCM_pref_mix" + f] = (EoN.EBCM_pref_mix, (N, Pk, Pnk, 0.6, 0.7), dict(kw, rho=rho, return_full_data=full))
         calls["EBCM_pref_mix_discrete" + f] = (EoN.EBCM_pref_mix_discrete, (N, Pk, Pnk, 0.4), dict(rho=rho, tmax=4, return_full_data=full))
+    # node-level models with every optional array argument given explicitly (full outer products, so
+    # entries of non-adjacent pairs are non-zero in the caller's arrays)
+    nl = list(G.nodes())
+    Y0 = A([1.0 if v in I0 else 0.15 for v in nl]); X0 = 1 - Y0
+    X0r = A([0.0 if (v in I0 or v in R0) else 0.85 for v in nl])
+    for full in (False, True):
+        f = "+full" if full else ""
+        calls["SIS_pair_based(arrays)" + f] = (EoN.SIS_pair_based, (G, 0.6, 0.7), dict(nodelist=list(nl), Y0=Y0.copy(), XY0=X0[:, None] * Y0[None, :], XX0=X0[:, None] * X0[None, :], tmin=0, tmax=2, tcount=5, return_full_data=full))
+        calls["SIR_pair_based(arrays)" + f] = (EoN.SIR_pair_based, (G, 0.6, 0.7), dict(nodelist=list(nl), Y0=Y0.copy(), X0=X0r.copy(), XY0=X0r[:, None] * Y0[None, :], XX0=X0r[:, None] * X0r[None, :], tmin=0, tmax=2, tcount=5, return_full_data=full))
+        calls["SIS_individual_based(arrays)" + f] = (EoN.SIS_individual_based, (G, 0.6, 0.7), dict(nodelist=list(nl), Y0=Y0.copy(), tmin=0, tmax=2, tcount=5, return_full_data=full))
+        calls["SIR_individual_based(arrays)" + f] = (EoN.SIR_individual_based, (G, 0.6, 0.7), dict(nodelist=list(nl), Y0=Y0.copy(), X0=X0r.copy(), tmin=0, tmax=2, tcount=5, return_full_data=full))
     calls["Attack_rate_cts_time"] = (EoN.Attack_rate_cts_time, (Pk, 0.6, 0.7), dict(rho=rho))
     calls["Attack_rate_discrete"] = (EoN.Attack_rate_discrete, (Pk, 0.4), dict(rho=rho))
     calls["Epi_Prob_discrete"] = (EoN.Epi_Prob_discrete, (Pk, 0.4), {})
